@@ -30,6 +30,10 @@ func shrinkMonitorFor(test string) func() Monitor {
 		return func() Monitor { return &c10Monitor{} }
 	case "TestC11_Slashing":
 		return func() Monitor { return &slashMonitor{} }
+	case "TestC12_Lifecycle":
+		return func() Monitor { return c12NewMonitor() }
+	case "TestC14_Bridge":
+		return func() Monitor { return newC14Monitor() }
 	case "TestC13_Settlement":
 		return func() Monitor { return newC13Monitor() }
 	case "TestC16_ValsetCheckpoints":
